@@ -78,15 +78,16 @@ def run(ctx):
             N = ctx.rng.choice([8, 20])
             seed = ctx.rng.randrange(1 << 30)
             prior = "box" if opt.get("bounds") else ctx.rng.choice(["normal", "box"])
+            width = "float32" if ctx.rng.random() < 0.3 else "float64"
             skw = {}
             if kind.endswith("_smc") and ctx.rng.random() < 0.5:
                 skw["n_final_samples"] = ctx.rng.choice([2 * N, N // 2])
             payloads = []
             cb = (lambda st: payloads.append(pickle.dumps(st))) if kind in ("minipcn_smc", "emcee_smc") else None
             case = {"sampler": kind, "preconditioning": pre, "kwargs": pkw, "options": opt, "ns": nsname, "dims": dims, "N": N, "seed": seed,
-                    "prior": prior, "sample_kwargs": skw}
+                    "prior": prior, "sample_kwargs": skw, "dtype": width}
             try:
-                a, out, tgt, flow = sd.aspire_sample(kind, nsname, dims, N, seed, pre=pre, pkw=pkw, opt=opt, prior=prior,
+                a, out, tgt, flow = sd.aspire_sample(kind, nsname, dims, N, seed, pre=pre, pkw=pkw, opt=opt, prior=prior, width=width,
                                                      flow_sigma=4.0 if prior == "box" else 2.5, sample_kwargs=skw, callback=cb)
             except Exception as e:
                 ctx.extra.setdefault("run_errors", []).append({"case": case, "error": repr(e)[:300]})
@@ -118,7 +119,7 @@ def run(ctx):
                 # resumed
                 if kind == "minipcn_smc" and len(payloads) >= 2:
                     try:
-                        a2, out2, tgt2, flow2 = sd.aspire_sample(kind, nsname, dims, N, seed, pre=pre, pkw=pkw, opt=opt, prior=prior,
+                        a2, out2, tgt2, flow2 = sd.aspire_sample(kind, nsname, dims, N, seed, pre=pre, pkw=pkw, opt=opt, prior=prior, width=width,
                                                                  flow_sigma=4.0 if prior == "box" else 2.5,
                                                                  sample_kwargs=dict(skw, resume_from=payloads[0]))
                         check_pop(ctx, out2, tgt2, flow2, f"{kind}:resumed-returned", dict(case, resumed=True), need_q=False)
